@@ -176,6 +176,10 @@ def c12_family():
 
 
 # ------------------------------------------------------------------ C10
+def envelope(k, r):
+    return k >= 1 and r >= 1 and any((k <= (1 << n) and r <= 65536 - (1 << n)) or (r <= (1 << n) and k <= 65536 - (1 << n)) for n in range(17))
+
+
 def c10_family():
     out = []
     dec = [
@@ -188,13 +192,13 @@ def c10_family():
     ]
     for k, r, lo, lr in dec:
         nm = f"oneshot_decode_{k}_{r}_o{'_'.join(map(str, lo)) or 'none'}_r{'_'.join(map(str, lr)) or 'none'}"
-        out.append(dict(mod="gen::c10g", name=nm, unwind=19, body=f"crate::c10::oneshot_decode::<{len(lo)}, {len(lr)}>({k}, {r}, {lo}, {lr})",
+        out.append(dict(mod="gen::c10g", name=nm, unwind=10, body=f"crate::c10::oneshot_decode::<{len(lo)}, {len(lr)}>({k}, {r}, {'true' if envelope(k, r) else 'false'}, {lo}, {lr})",
                         kind="decode", k=k, r=r, lo=lo, lr=lr))
     enc = [(1, 1, []), (2, 1, [2]), (2, 1, [2, 2, 2]), (1, 1, [2, 2]), (1, 1, [0]), (1, 1, [3]), (2, 1, [2, 4]), (2, 2, [4, 2]), (0, 1, [2]), (1, 0, [2]),
            (3, 2, [2, 2]), (40000, 40000, [2])]
     for k, r, lo in enc:
         nm = f"oneshot_encode_{k}_{r}_o{'_'.join(map(str, lo)) or 'none'}"
-        out.append(dict(mod="gen::c10g", name=nm, unwind=19, body=f"crate::c10::oneshot_encode::<{len(lo)}>({k}, {r}, {lo})",
+        out.append(dict(mod="gen::c10g", name=nm, unwind=10, body=f"crate::c10::oneshot_encode::<{len(lo)}>({k}, {r}, {'true' if envelope(k, r) else 'false'}, {lo})",
                         kind="encode", k=k, r=r, lo=lo))
     return out
 
@@ -207,21 +211,23 @@ def c07_family():
             ("high32", "HighRateDecoder<N>", 3, 2, True), ("low23", "LowRateDecoder<N>", 2, 3, True)]
     for tag, ty, k, r, finish in decs:
         calls = [(0, 0), (1, 0), (2, 0), (3, 0)] + [(4, l) for l in (0, 1, 3, 4)] + [(5, l) for l in (0, 3)]
-        if k >= 2:
+        if k >= 2 and finish:
+            # (decode on a DefaultRate codec, even on its error path, makes CBMC walk the whole
+            # decode body with non-constant counts: out of memory; dedicated codecs only)
             calls.append((6, 0))
         calls += [(7, c) for c in range(11)]
         for kind, arg in calls:
             if kind == 4 and k < 2:
                 continue
             # finishing the round executes decode: only for dedicated codecs and only for some kinds (cost)
-            fin = finish and kind in (0, 2, 4, 6, 7) and arg in (0, 3, 9)
+            fin = finish and kind in (2, 4, 6, 7) and arg in (0, 3, 9)
             out.append(dict(mod="gen::c07g", name=f"dec_failed_{tag}_{k}_{r}_k{kind}_a{arg}", unwind=66, stub=(fin and "low" in tag),
                             body=f"crate::c07::dec_failed_call::<{ty}>({k}, {r}, {kind}, {arg}, {'true' if fin else 'false'})",
                             kind="dec_failed", codec=ty, k=k, r=r, call=kind, arg=arg, finish=fin, tag=tag))
     encs = [("high", "HighRateEncoder<N>", 2, 1, True), ("low", "LowRateEncoder<N>", 2, 3, True),
             ("dhigh", "DefaultRateEncoder<N>", 2, 1, False), ("dlow", "DefaultRateEncoder<N>", 2, 3, False)]
     for tag, ty, k, r, finish in encs:
-        calls = [(0, l) for l in (0, 1, 3, 4, 6)] + [(1, 0), (2, 0)] + [(3, c) for c in range(11)]
+        calls = [(0, l) for l in (0, 1, 3, 4, 6)] + [(1, 0)] + ([(2, 0)] if finish else []) + [(3, c) for c in range(11)]
         for kind, arg in calls:
             fin = finish and kind != 1 and arg in (0, 3, 9)
             out.append(dict(mod="gen::c07g", name=f"enc_failed_{tag}_{k}_{r}_k{kind}_a{arg}", unwind=66,
@@ -284,11 +290,11 @@ def c09_family():
             for sb in (2, 66):
                 out.append(dict(mod="gen::c09g", name=f"default_new_{side}_{k}_{r}_{sb}", unwind=40,
                                 body=f"crate::c09::default_new_{side}({k}, {r}, {sb})", kind="new", side=side, k=k, r=r, sb=sb, high=rule(k, r)))
-    resets = [((3, 2, 2), (2, 3, 2)), ((2, 3, 2), (3, 2, 2)), ((3, 2, 66), (2, 3, 2)), ((2, 3, 2), (5, 3, 66)), ((3, 2, 2), (4, 1, 2)), ((2, 3, 2), (1, 4, 2)),
-              ((4, 4, 2), (5, 4, 2)), ((5, 4, 2), (4, 4, 2)), ((3, 3, 2), (4, 3, 2)), ((1, 1, 2), (2, 1, 130)), ((2, 2, 130), (1, 2, 2)), ((4, 5, 2), (5, 4, 2))]
+    resets = [((3, 2, 2), (2, 3, 2)), ((2, 3, 2), (3, 2, 2)), ((3, 2, 66), (2, 3, 2)), ((2, 3, 2), (2, 1, 66)), ((3, 2, 2), (4, 1, 2)), ((2, 3, 2), (1, 4, 2)),
+              ((2, 2, 2), (3, 2, 2)), ((3, 2, 2), (2, 2, 2)), ((3, 3, 2), (4, 3, 2)), ((1, 1, 2), (2, 1, 66)), ((2, 2, 66), (1, 2, 2)), ((1, 2, 2), (2, 1, 2))]
     for a, b in resets:
         for side in ("enc", "dec"):
-            out.append(dict(mod="gen::c09g", name=f"default_reset_{side}_{'_'.join(map(str, a))}_to_{'_'.join(map(str, b))}", unwind=40,
+            out.append(dict(mod="gen::c09g", name=f"default_reset_{side}_{'_'.join(map(str, a))}_to_{'_'.join(map(str, b))}", unwind=20,
                             body=f"crate::c09::default_reset_{side}({a[0]}, {a[1]}, {a[2]}, {b[0]}, {b[1]}, {b[2]})", kind="reset", side=side, a=a, b=b,
                             cross=rule(a[0], a[1]) != rule(b[0], b[1])))
     for k, r in ((2, 2), (3, 2), (2, 3), (4, 3), (3, 4)):
@@ -305,7 +311,138 @@ def c09_family():
     return out
 
 
+# ------------------------------------------------------------------ C15 / C03 primitives
+TOP = 65536
+
+
+def prim_tuples(thorough_extra=True):
+    """(size, trunc, delta) for fft/ifft obligations"""
+    out = []
+    for size in (1, 2, 4):
+        for delta in (0, size, 2 * size, TOP - size):
+            for trunc in range(1, size + 1):
+                out.append((size, trunc, delta))
+    for delta in (0, 8, TOP - 8):
+        for trunc in (1, 3, 4, 5, 8):
+            out.append((8, trunc, delta))
+    return out
+
+
+ENGINES = {"nosimd": ("NoSimd", "h"), "ssse3": ("Ssse3", "hx"), "avx2": ("Avx2", "hx"), "naive": ("Naive", "h")}
+
+
+def c15_family():
+    out = []
+    for size, trunc, delta in prim_tuples():
+        for op in ("fft", "ifft"):
+            isf = "true" if op == "fft" else "false"
+            ps = range(size) if op == "fft" else range(trunc)
+            for p in ps:
+                out.append(dict(mod="gen::c15g", name=f"basis_nosimd_{op}_{size}_{trunc}_{delta}_p{p}", unwind=128, macro="h",
+                                body=f"crate::c15::prim_basis::<NoSimd>({isf}, {size}, {trunc}, {delta}, {p})",
+                                kind="basis", engine="nosimd", op=op, size=size, trunc=trunc, delta=delta, p=p))
+            out.append(dict(mod="gen::c15g", name=f"additive_nosimd_{op}_{size}_{trunc}_{delta}", unwind=128, macro="h",
+                            body=f"crate::c15::prim_additive::<NoSimd>({isf}, {size}, {trunc}, {delta})",
+                            kind="additive", engine="nosimd", op=op, size=size, trunc=trunc, delta=delta))
+            for eng in ("ssse3", "avx2", "naive"):
+                if eng == "naive" and size > 4:
+                    continue
+                T, mac = ENGINES[eng]
+                out.append(dict(mod="gen::c15g", name=f"miter_{eng}_{op}_{size}_{trunc}_{delta}", unwind=128, macro=mac,
+                                body=f"crate::c15::prim_miter::<{T}>({isf}, {size}, {trunc}, {delta})",
+                                kind="miter", engine=eng, op=op, size=size, trunc=trunc, delta=delta))
+    for eng in ("nosimd", "ssse3", "avx2", "naive"):
+        T, mac = ENGINES[eng]
+        for op, size, trunc, delta in (("fft", 4, 3, 4), ("ifft", 4, 2, 8), ("fft", 8, 5, 0), ("ifft", 8, 8, 8)):
+            isf = "true" if op == "fft" else "false"
+            out.append(dict(mod="gen::c15g", name=f"kat_{eng}_{op}_{size}_{trunc}_{delta}", unwind=128, macro=mac,
+                            body=f"crate::c15::prim_kat::<{T}>({isf}, {size}, {trunc}, {delta}, &crate::gen::primkat::IN_{size}, &crate::gen::primkat::OUT_{op.upper()}_{size}_{trunc}_{delta})",
+                            kind="kat", engine=eng, op=op, size=size, trunc=trunc, delta=delta))
+    for eng, mac in (("nosimd", "h"), ("ssse3", "hx"), ("avx2", "hx")):
+        for nb in (1, 2):
+            out.append(dict(mod="gen::c15g", name=f"mul_{eng}_arbitrary_row_{nb}", unwind=128, macro=mac,
+                            body=f"crate::c15::mul_{eng}({nb})", kind="mul", engine=eng, nblocks=nb))
+    for m in (0, 1, 4369, 12345, 34952, 65534, 65535):
+        out.append(dict(mod="gen::c15g", name=f"mul_naive_vs_nosimd_{m}", unwind=128, macro="h",
+                        body=f"crate::c15::mul_naive_vs_nosimd({m})", kind="mul_naive", engine="naive", log_m=m))
+    return out
+
+
+# ------------------------------------------------------------------ C05
+def c05_family():
+    out = []
+    S = "SpecEngine"
+    enc_b = [("high", 3, 2), ("low", 2, 3), ("high", 5, 2), ("low", 1, 3)]
+    a_cfgs = {"high": [("high", 5, 3, 66), ("high", 2, 1, 2), ("low", 2, 3, 130), ("low", 3, 5, 2)],
+              "low": [("low", 3, 5, 66), ("low", 1, 2, 2), ("high", 3, 2, 130), ("high", 5, 3, 2)]}
+    for rate, k, r in enc_b:
+        G = f"&crate::gen::gmat::G_{rate.upper()}_{k}_{r}"
+        for ar, ak, arr, asb in a_cfgs[rate]:
+            conv = f"crate::c17::{ar}_id_enc" if ar == rate else f"crate::c17::{ar}_to_{rate}_enc"
+            for p in range(k):
+                out.append(dict(mod="gen::c05g", name=f"enc_after_reset_{ar}_{ak}_{arr}_{asb}_to_{rate}_{k}_{r}_p{p}", unwind=66,
+                                body=f"crate::c05::enc_after_reset::<{ENC_TY[ar]}<{S}>, {ENC_TY[rate]}<{S}>>(({ak}, {arr}, {asb}), {k}, {r}, {p}, {G}, {conv})",
+                                kind="enc_after_reset", rate=rate, k=k, r=r, a=(ar, ak, arr, asb), p=p, cross=(ar != rate)))
+        for p in range(k):
+            out.append(dict(mod="gen::c05g", name=f"enc_round_drop_round_{rate}_{k}_{r}_p{p}", unwind=66,
+                            body=f"crate::c05::enc_round_drop_round::<{ENC_TY[rate]}<{S}>>({k}, {r}, {p}, {G})",
+                            kind="enc_rdr", rate=rate, k=k, r=r, p=p))
+    dec_b = [("high", 3, 2, 0b100, 0b11, 0b001, 0b11), ("low", 2, 3, 0b00, 0b101, 0b01, 0b100), ("high", 2, 2, 0b00, 0b11, 0b10, 0b01)]
+    for rate, k, r, om, rm, om1, rm1 in dec_b:
+        G = f"&crate::gen::gmat::G_{rate.upper()}_{k}_{r}"
+        for ar, ak, arr, asb in a_cfgs[rate]:
+            conv = f"crate::c17::{ar}_id_dec" if ar == rate else f"crate::c17::{ar}_to_{rate}_dec"
+            for p in range(k):
+                out.append(dict(mod="gen::c05g", name=f"dec_after_reset_{ar}_{ak}_{arr}_{asb}_to_{rate}_{k}_{r}_p{p}", unwind=66, stub=(rate == "low"),
+                                body=f"crate::c05::dec_after_reset::<{DEC_TY[ar]}<{S}>, {DEC_TY[rate]}<{S}>, {k}, {r}>(({ak}, {arr}, {asb}), {om}, {rm}, {p}, {G}, {conv})",
+                                kind="dec_after_reset", rate=rate, k=k, r=r, a=(ar, ak, arr, asb), p=p, om=om, rm=rm, cross=(ar != rate)))
+        for p in range(k):
+            out.append(dict(mod="gen::c05g", name=f"dec_round_drop_round_{rate}_{k}_{r}_p{p}", unwind=66, stub=(rate == "low"),
+                            body=f"crate::c05::dec_round_drop_round::<{DEC_TY[rate]}<{S}>, {k}, {r}>({om1}, {rm1}, {om}, {rm}, {p}, {G})",
+                            kind="dec_rdr", rate=rate, k=k, r=r, p=p, om=om, rm=rm))
+    return out
+
+
+# ------------------------------------------------------------------ C04
+B_SIZE = (2, 4, 30, 62, 64, 66, 126, 128, 130)
+
+
+def c04_family():
+    out = []
+    for sb in B_SIZE:
+        for rate in ("high", "low"):
+            out.append(dict(mod="gen::c04g", name=f"layout_enc_{rate}_{sb}", unwind=140,
+                            body=f"crate::c04::layout_enc::<{ENC_TY[rate]}<N>>({sb})", kind="layout_enc", rate=rate, sb=sb))
+        nsym = sb // 2
+        qs = sorted({0, nsym - 1, min(nsym - 1, 32 * (sb // 64)), max(0, 32 * (sb // 64) - 1)})
+        for q in qs:
+            out.append(dict(mod="gen::c04g", name=f"layout_work_{sb}_q{q}", unwind=140,
+                            body=f"crate::c04::layout_work::<HighRateEncoder<crate::c04::LookEngine>>({sb}, {q})", kind="layout_work", sb=sb, q=q))
+    S = "SpecEngine"
+    for rate, k, r in (("high", 2, 1), ("low", 1, 2), ("high", 3, 2), ("low", 2, 3)):
+        G = f"&crate::gen::gmat::G_{rate.upper()}_{k}_{r}"
+        for sb in (4, 30, 64, 66, 130):
+            nsym = sb // 2
+            for q in sorted({0, nsym - 1}):
+                for p in sorted({0, k - 1}):
+                    out.append(dict(mod="gen::c04g", name=f"enc_slot_{rate}_{k}_{r}_sb{sb}_q{q}_p{p}", unwind=140,
+                                    body=f"crate::c04::enc_slot::<{ENC_TY[rate]}<{S}>>({k}, {r}, {sb}, {q}, {p}, {G})",
+                                    kind="enc_slot", rate=rate, k=k, r=r, sb=sb, q=q, p=p))
+    for rate, k, r, om, rm in (("high", 2, 1, 0b10, 0b1), ("low", 1, 2, 0b0, 0b10), ("high", 3, 2, 0b100, 0b11), ("low", 2, 3, 0b00, 0b101)):
+        G = f"&crate::gen::gmat::G_{rate.upper()}_{k}_{r}"
+        for sb in (4, 30, 64, 66):
+            nsym = sb // 2
+            for q in sorted({0, nsym - 1}):
+                out.append(dict(mod="gen::c04g", name=f"dec_slot_{rate}_{k}_{r}_sb{sb}_q{q}", unwind=140, stub=(rate == "low"),
+                                body=f"crate::c04::dec_slot::<{DEC_TY[rate]}<{S}>, {k}, {r}>({sb}, {q}, {om}, {rm}, {k - 1}, {G})",
+                                kind="dec_slot", rate=rate, k=k, r=r, sb=sb, q=q, om=om, rm=rm))
+    return out
+
+
 FAMILIES = {
+    "c04g": c04_family,
+    "c05g": c05_family,
+    "c15g": c15_family,
     "c09g": c09_family,
     "c11g": c11_family,
     "c17g": c17_family,
@@ -334,9 +471,9 @@ def render(modname):
                          + "#[cfg_attr(kani, kani::stub(std::hash::RandomState::new, crate::c10::fixed_random_state))]\n"
                          + f"pub fn {m['name']}() {{\n    {m['body']}\n}}\n")
         return "".join(lines)
-    lines = ["// generated by lib/families.py\n", "#![allow(unused_imports)]\n", "use crate::{h, hf};\n", "use crate::model::*;\n",
+    lines = ["// generated by lib/families.py\n", "#![allow(unused_imports)]\n", "use crate::{h, hf, hx};\n", "use reed_solomon_simd::engine::{Avx2, Naive, NoSimd, Ssse3};\n", "use crate::model::*;\n",
              "use reed_solomon_simd::rate::*;\n", "type N = NullEngine;\n\n"]
     for m in members:
-        mac = "hf" if m.get("stub") else "h"
+        mac = m.get("macro") or ("hf" if m.get("stub") else "h")
         lines.append(f"{mac}!({m['name']}, {m['unwind']}, {m['body']});\n")
     return "".join(lines)
